@@ -54,8 +54,47 @@ def run_valgrind(pid, tier, seed, cfg, env_for, known, excludes, BUILD, REPO, rd
     return out
 
 
+def run_tsan(pid, tier, seed, cfg, env_for, known, excludes, BUILD, REPO, rdir):
+    """The same rapidcheck property in the free-running flavour (real parallel threads, ThreadSanitizer, generated
+    delays at lock operations). The harness turns a ThreadSanitizer report with a libbidib frame into a failure."""
+    tc = cfg["tsan"][tier]
+    outdir = "%s/run/%s-tsan" % (BUILD, pid)
+    shutil.rmtree(outdir, ignore_errors=True)
+    os.makedirs(outdir, exist_ok=True)
+    procs = []
+    env = env_for("tsan")
+    for w in range(tc["workers"]):
+        wseed = (seed * 6151 + w * 15485863 + 29) % (2**31 - 1) or 1
+        statf = "%s/w%d.json" % (outdir, w)
+        cmd = ["%s/tsan/vfprop" % BUILD, "run", pid, "--cases", str(tc["cases"]), "--size", str(tc.get("size", 70)), "--seed", str(wseed),
+               "--out", statf, "--replays", rdir, "--max-shrinks", "60"]
+        if excludes:
+            cmd += ["--exclude", ",".join(excludes)]
+        lf = open("%s/w%d.log" % (outdir, w), "w")
+        procs.append((subprocess.Popen(cmd, stdout=lf, stderr=subprocess.STDOUT, env=env), statf, lf))
+    stats = _worker_stats(procs)
+    if len(stats) < tc["workers"]:
+        print("INFRASTRUCTURE: a ThreadSanitizer worker produced no statistics (see %s)" % outdir)
+        sys.exit(2)
+    out = {"violations": [], "known_lines": [], "coverage": {}}
+    ev, nt, threads, calls = 0, set(), 0, 0
+    for st in stats:
+        ev += st["evaluations"]
+        nt.update(st.get("nt_hashes", []))
+        threads += st["counters"].get("threads", 0)
+        calls += st["counters"].get("api-calls", 0)
+        if st.get("failed"):
+            f = st["failure"]
+            out["violations"].append((f["replay"], f["signature"], f["msg"]))
+    out["coverage"] = {"tsan_cases": ev, "tsan_distinct_nontrivial": len(nt), "tsan_threads_run": threads, "tsan_api_calls": calls, "evaluations": ev,
+                       "rule_extra": " | ThreadSanitizer part: the same generator with real parallel threads (up to 12) and generated delays at lock operations"}
+    return out
+
+
 def run(pid, tier, seed, cfg, env_for, known, excludes, BUILD, REPO, rdir):
     kind = cfg["extra"]
+    if kind == "tsan":
+        return run_tsan(pid, tier, seed, cfg, env_for, known, excludes, BUILD, REPO, rdir)
     if kind == "valgrind":
         return run_valgrind(pid, tier, seed, cfg, env_for, known, excludes, BUILD, REPO, rdir)
     raise SystemExit("unknown extra engine " + kind)
